@@ -53,7 +53,7 @@ ASSUMPTIONS = [
     "Q registers (scratch electron register) and C15 (end no-op) are excluded from the classical comparison",
 ]
 PROBES = ["sdk-emitted", "sdk-nv-config", "branch-crosses-expansion", "carbon-carbon-gate", "end-label-target", "loop", "if", "measure-feeds-branch",
-          "debug-on", "three-qubits", "s-or-t-gate", "q-register-by-load", "carbon-carbon-burst", "q-register-live-across-carbon-gate", "hardware-setting-on"]
+          "debug-on", "three-qubits", "s-or-t-gate", "q-register-by-load", "carbon-carbon-burst", "q-register-live-across-carbon-gate", "hardware-setting-on", "label-directly-on-a-gate"]
 
 G1 = ["x", "y", "z", "h", "k", "s", "t"]
 Q = [("Q", 0), ("Q", 1)]
@@ -66,10 +66,24 @@ class ProgGen:
         self.avoid = avoid
         self.kinds: set = set()
         self.label_past_end = False
+        self.fixed: Optional[Tuple[int, int]] = None   # (Q0, Q1) set once at the top, never rewritten
 
     def gate(self) -> List[tuple]:
         ch = self.ch
         k = ch.weighted([5, 2, 3], "gk")
+        if self.fixed is not None:
+            # gates stand alone (no `set` in front): a label can sit directly on a gate
+            if k == 0:
+                g = G1[ch.draw(len(G1), "g1")]
+                if g in ("s", "t"):
+                    self.kinds.add("s-or-t-gate")
+                return [(g, ("Q", ch.draw(2, "fq")))]
+            if k == 1:
+                return [("rot_" + ch.pick(["x", "y", "z"]), ("Q", ch.draw(2, "fq")), ch.draw(32, "n"), ch.draw(5, "d"))]
+            if 0 not in self.fixed:
+                self.kinds.add("carbon-carbon-gate")
+            r0 = ch.draw(2, "fdir")
+            return [(ch.pick(["cnot", "cphase"]), ("Q", r0), ("Q", 1 - r0))]
         if k == 0:
             g = G1[ch.draw(len(G1), "g1")]
             if g in ("s", "t"):
@@ -94,6 +108,8 @@ class ProgGen:
         return [("set", reg, v)]
 
     def meas(self, mreg: int) -> List[tuple]:
+        if self.fixed is not None:
+            return [("meas", ("Q", self.ch.draw(2, "fq")), ("M", mreg))]
         q = self.ch.draw(self.n, "mq")
         return self.setq(("Q", 0), q) + [("meas", ("Q", 0), ("M", mreg))]
 
@@ -131,8 +147,18 @@ class ProgGen:
         return out
 
     def program(self) -> List[tuple]:
-        body = self.block(0)
-        if self.n >= 3 and self.ch.flag(1, 6, "liveq"):
+        if self.ch.flag(1, 6, "fixedq"):
+            # both qubit registers are set once at the top and never rewritten: every gate stands alone, so branch
+            # targets (an if's exit label) fall directly on gates, including multi-instruction expansions
+            a = self.ch.draw(self.n, "fa")
+            b = self.ch.draw(self.n - 1, "fb")
+            b = b if b < a else b + 1
+            self.fixed = (a, b)
+            self.kinds.add("label-directly-on-a-gate")
+            body = [("set", ("Q", 0), a), ("set", ("Q", 1), b)] + self.block(0) + self.block(0)
+        else:
+            body = self.block(0)
+        if self.fixed is None and self.n >= 3 and self.ch.flag(1, 6, "liveq"):
             # a third qubit register, written by `load` only and *not* used by any gate, stays live across a
             # carbon-carbon gate (whose expansion borrows a scratch register) and is read by a measurement afterwards
             self.kinds.add("q-register-live-across-carbon-gate")
@@ -141,7 +167,7 @@ class ProgGen:
             body += [("set", ("R", 9), q), ("load", ("Q", 2), 7, ("R", 9)),
                      ("set", ("Q", 0), 1), ("set", ("Q", 1), 2), (self.ch.pick(["cnot", "cphase"]), ("Q", 0), ("Q", 1)),
                      ("meas", ("Q", 2), ("M", 1)), ("set", ("R", 8), 3), ("store", ("M", 1), 0, ("R", 8))]
-        if self.n >= 3 and self.ch.flag(1, 12, "ccburst"):
+        if self.fixed is None and self.n >= 3 and self.ch.flag(1, 12, "ccburst"):
             # a long run of carbon-carbon gates: every one borrows the electron through a scratch register
             self.kinds.add("carbon-carbon-burst")
             self.kinds.add("carbon-carbon-gate")
